@@ -12,7 +12,7 @@ FhDefault ==
    INVALID_TRANSMISSION_MODE |-> "cancel", UNSUPPORTED_CHECKSUM_TYPE |-> "ignore"]
 DefaultCfg ==
   [id |-> 0, mode |-> "ACK", closure |-> FALSE, putMode |-> "none", putClosure |-> "none", segLen |-> 4, maxPkt |-> 512,
-   crc |-> FALSE, chk |-> "CRC32", ackInt |-> 1000, ackLim |-> 2, nakInt |-> 1000, nakLim |-> 2, chkInt |-> 1000,
+   crc |-> FALSE, chk |-> "CRC32", ackInt |-> 1000, ackIntD |-> 0, ackLim |-> 2, nakInt |-> 1000, nakLim |-> 2, chkInt |-> 1000,
    chkLim |-> 2, immNak |-> TRUE, disp |-> FALSE, sIdW |-> 2, dIdW |-> 2, sId |-> 1, dId |-> 2, seqW |-> 2, seq0 |-> 0,
    indS |-> IndAll, indD |-> IndAll, fhS |-> FhDefault, fhD |-> FhDefault,
    file |-> <<48, 49, 50, 51, 52, 53, 54, 55, 56, 57, 65, 66>>, mdOnly |-> FALSE, srcName |-> "src.bin",
